@@ -313,6 +313,8 @@ def stmt_kind(s):
         return "assign " + unparse(s.target).split("[")[0]
     if isinstance(s, ast.Expr) and isinstance(s.value, ast.Call):
         return "call " + (dotted(s.value.func) or "?")
+    if isinstance(s, ast.Break):
+        return "break"  # leaving a search loop early: the for-else that follows is reached only when no break fired
     return None
 
 
